@@ -375,6 +375,7 @@ func createStrFunctions() { //nolint:funlen // we do have quite a few, yes.
 		if len(args) == 2 {
 			sep = args[1].(object.String).Value
 		}
+		object.MustBeOk(strings.Count(inp, sep) + 1) // before strings.Split allocates as many string headers.
 		parts := strings.Split(inp, sep)
 		l := len(parts)
 		object.MustBeOk(l)
